@@ -5,6 +5,9 @@
 (*               loaded from (1 user, 2 built-in, 0 nothing), the answer of a fresh loader over the same     *)
 (*               directories (cold) and of a fresh loader over the canonical realization of the same         *)
 (*               configuration (ref).  fs/pkg: which loaders the object has (what it can see).               *)
+(*   k = "name"  one request for a template BY NAME (get_source / get_template / include / import): inU, inB  *)
+(*               (a file of that name exists in a user directory / the built-in set), fs / pkg (loader objects *)
+(*               present), src (set the text came from: 1 user, 2 built-in, 3 a wrong text, 0 not found/error) *)
 (*   k = "inst"  one value (class vcls; class of its data type dcls if it is an attribute) and the answers of *)
 (*               every instance test: res[K] for the test named after class K, resa[K] for its alias         *)
 (*               (0 false, 1 true, 2 no such test)                                                           *)
@@ -70,6 +73,14 @@ AliasVerdict(r) ==
     ELSE IF ~r.has_name \/ ~r.has_alias THEN <<"env.test_exists", 0>>
     ELSE <<"ok", 0>>
 
+(* same leniency about visibility as for histories: with one loader object the other set is invisible for  *)
+(* the I-layer; an execution that is right for both sets being visible is drift, not a violation            *)
+NameVerdict(r) ==
+    IF NameOK(r.inU, r.inB, r.fs, r.pkg, r.src) THEN <<"ok", 0>>
+    ELSE IF (r.fs # r.pkg) /\ NameOK(r.inU, r.inB, TRUE, TRUE, r.src) THEN <<"drift.visibility", 0>>
+    ELSE IF r.inU /\ r.fs THEN <<"lookup.user_first", r.src>>
+    ELSE <<"lookup.resolvable", r.src>>
+
 EnvVerdict(r) == IF NoSilentReplace(r.allow, r.err, r.replaced) THEN <<"ok", 0>> ELSE <<"env.no_silent_replace", r.replaced>>
 
 Verdict(r) ==
@@ -77,6 +88,7 @@ Verdict(r) ==
     ELSE IF r.k = "inst" THEN InstVerdict(r)
     ELSE IF r.k = "alias" THEN AliasVerdict(r)
     ELSE IF r.k = "env" THEN EnvVerdict(r)
+    ELSE IF r.k = "name" THEN NameVerdict(r)
     ELSE <<"harness.kind", 0>>
 
 TInit == l = 1
